@@ -207,3 +207,4 @@ func TestC18StartExceedsRF(t *testing.T) {
 		t.Fatalf("Start with more addresses than the replication factor must be refused")
 	}
 }
+
